@@ -161,3 +161,9 @@ Theorem C13_coll_noclone_leaf_clobbered :
   read h1 colKey1 = [97; 98] /\ read h2 colKey1 = [99; 100].
 Proof. exact coll_noclone_leaf_clobbered. Qed.
 Print Assumptions C13_coll_noclone_leaf_clobbered.
+
+(* ... and the code as it reads today returns copies for both results (REGENERATED from keys.go) *)
+Theorem C13_collation_transform_copies :
+  map snd SrcFacts.collation_transform_results = ["copy"; "copy"]%string.
+Proof. exact collation_transform_copies. Qed.
+Print Assumptions C13_collation_transform_copies.
